@@ -226,8 +226,8 @@ def project(ctx, c, which):
             return REJECT                     # intconstexpr: "not an integer constant expression"
         if ctx == "enum":
             return ("value", u64(r["v"]))
-        if ctx == "case":
-            return ("accept",)
+        if ctx == "case":           # the constant the comparison ladder tests the controlling value against
+            return ("case", 8 * c["ptz"], u64(r["v"]) & ((1 << (8 * c["ptz"])) - 1))
         if ctx == "sa_direct":
             return ("accept",) if u64(r["v"]) != 0 else REJECT
         if ctx == "casedup":
@@ -375,7 +375,16 @@ def observe(ctx, c, rc, mod, err):
         return CRASH if rc != -999 else ("hang",)
     if rc != 0:
         return REJECT
-    if ctx in ("case", "casedup", "sa_eq", "sa_ne", "sa_direct", "array_neg"):
+    if ctx == "case":
+        for f in mod["funcs"]:
+            if f["name"] == "f%d" % c["i"]:
+                for b in f["blocks"]:
+                    for ins in b["insts"]:
+                        if ins["op"] in ("ceqw", "ceql") and len(ins["args"]) == 2 and ins["args"][1]["t"] == "int":
+                            w = 32 if ins["op"] == "ceqw" else 64
+                            return ("case", w, ins["args"][1]["v"] & ((1 << w) - 1))
+        return ("no-ladder",)
+    if ctx in ("casedup", "sa_eq", "sa_ne", "sa_direct", "array_neg"):
         return ("accept",)
     d = mod["byname"].get("%s%d" % (NAME[ctx], c["i"]))
     if d is None:
